@@ -737,6 +737,12 @@ add("b17o", ["C17"], (S, """        if scan_schedulers:
         for job in self.jobs:
             yield from job._iterate_jobs(
                 scan_schedulers=scan_schedulers)""", """        yield from PureScheduler.iterate_jobs(self, scan_schedulers)"""), expect='silent')
+add('b17q', ["C17"], (P, '        neighbours = set()\n        for start in starts:\n            for next in getattr(start, attname):\n                # just in case\n                if next not in self.jobs:\n                    continue\n                if next not in neighbours:\n                    neighbours.add(next)\n        return neighbours\n', '        return {next for start in starts for next in getattr(start, attname) if next in self.jobs}\n'), expect='silent')
+add('b17r', ["C17"], (P, '        neighbours = set()\n        for start in starts:\n            for next in getattr(start, attname):\n                # just in case\n                if next not in self.jobs:\n                    continue\n                if next not in neighbours:\n                    neighbours.add(next)\n        return neighbours\n', '        return set(n for s in starts for n in getattr(s, attname) if n in self.jobs)\n'), expect='silent')
+add('m17q', ["C17"], (P, '        neighbours = set()\n        for start in starts:\n            for next in getattr(start, attname):\n                # just in case\n                if next not in self.jobs:\n                    continue\n                if next not in neighbours:\n                    neighbours.add(next)\n        return neighbours\n', '        return {next for start in starts for next in getattr(start, attname)}\n'), rules=['R17.3'])
+add('m17r', ["C17"], (P, '        neighbours = set()\n        for start in starts:\n            for next in getattr(start, attname):\n                # just in case\n                if next not in self.jobs:\n                    continue\n                if next not in neighbours:\n                    neighbours.add(next)\n        return neighbours\n', '        return {next for start in starts for next in start.required if next in self.jobs}\n'), rules=['R17.3'])
+add('m17s', ["C17"], (P, '        neighbours = set()\n        for start in starts:\n            for next in getattr(start, attname):\n                # just in case\n                if next not in self.jobs:\n                    continue\n                if next not in neighbours:\n                    neighbours.add(next)\n        return neighbours\n', '        return {next for start in starts for next in getattr(start, attname) if next in self.jobs and next not in starts}\n'), rules=['R17.3'])
+add('m17t', ["C17"], (P, '        neighbours = set()\n        for start in starts:\n            for next in getattr(start, attname):\n                # just in case\n                if next not in self.jobs:\n                    continue\n                if next not in neighbours:\n                    neighbours.add(next)\n        return neighbours\n', '        return {next for next in getattr(starts[0], attname) if next in self.jobs}\n'), rules=['R17.3'])
 add("b17a", ["C17"], (P, """                if next not in neighbours:
                     neighbours.add(next)""", """                neighbours.add(next)"""), expect='silent')
 
